@@ -26,7 +26,7 @@ RULE = (
     "Hypothesis: polynomial integrands (sums, products, integer powers <= 3, fixed and free indexing, list/component "
     "tensors, dot/inner/outer/det/cofac/dev/sym/skew/tr, grad/div/curl/dx up to order 2, x, cell-wise constant geometry, "
     "constants) over coefficients and arguments on Lagrange/DG P1-P3, RT/N1curl-like, Regge/HHJ-like, heterogeneous "
-    "symmetric elements and a mixed element of 2-4 sub-elements of different degree and shape whose fixed components "
+    "symmetric elements (scalar blocks; vector-valued Lagrange / RT blocks of different degree) and a mixed element of 2-4 sub-elements of different degree and shape whose fixed components "
     "are accessed; affine interval/triangle/tetrahedron incl. immersed cells. non-trivial = true degree >= 2 and the "
     "integrand accesses a component of a mixed/symmetric element or contains a derivative or a product of two fields; "
     "distinct = distinct recipe."
@@ -37,7 +37,7 @@ ASSUMPTIONS = [
     "residual threshold 1e-7 where an under-estimate by one degree leaves a residual of order 1e-2",
 ]
 BUDGET = {"quick": {"examples": 3000, "seconds": 75}, "thorough": {"examples": 100000, "seconds": 1500}}
-LABEL_FLOORS = {"quick": {"mixed-component": 600, "symmetric": 100, "derivative": 500, "manifold": 400, "form-data": 500}}
+LABEL_FLOORS = {"quick": {"symmetric-vector-blocks": 150, "mixed-component": 600, "symmetric": 100, "derivative": 500, "manifold": 400, "form-data": 500}}
 CASE_TIMEOUT = {"quick": 20, "thorough": 60}
 
 POLY = Profile(ops={"arith", "index", "tensor", "compound", "deriv", "ipow"}, leaves={"coef", "const", "lit", "x", "geo", "zero", "eye"},
@@ -76,10 +76,16 @@ def cases(draw, tier):
     nq = sum(phys_size(s, g) for s in subs)
     world["fields"]["q0"] = dict(kind="coef", elem=["mixed", subs], shape=[nq])
     world["fields"]["q1"] = dict(kind="arg", elem=["mixed", subs], shape=[nq], number=0, part=None)
+    # a symmetric element whose blocks are vector valued (value shape (g, g, g)), blocks of different degree
+    nb = g * (g + 1) // 2
+    blk = draw(st.sampled_from(["P", "P", "RT"]))
+    world["fields"]["s0"] = dict(kind="coef", shape=[g, g, g], elem=[
+        "sym", g, [(["P", 1 + ((k + draw(st.integers(0, 2))) % 3), [g]] if blk == "P" else ["RT", 1 + (k + draw(st.integers(0, 1))) % 2])
+                   for k in range(nb)]])
     G = Gen(draw, world, POLY)
     terms = []
     for _ in range(draw(st.integers(1, 3))):
-        k = draw(st.sampled_from(["mixcomp", "mixcomp", "symcomp", "general", "general", "mixgrad"]))
+        k = draw(st.sampled_from(["mixcomp", "mixcomp", "symcomp", "symvec", "general", "general", "mixgrad"]))
         if k == "mixcomp":
             q = draw(st.sampled_from(["q0", "q1"]))
             t = ["index", ["fld", q], [draw(st.integers(0, nq - 1))]]
@@ -92,6 +98,10 @@ def cases(draw, tier):
             t = ["index", ["grad", ["fld", q]], [draw(st.integers(0, nq - 1)), draw(st.integers(0, g - 1))]]
             if draw(st.booleans()):
                 t = ["mul", t, ["index", ["fld", "q0"], [draw(st.integers(0, nq - 1))]]]
+        elif k == "symvec":
+            t = ["index", ["fld", "s0"], [draw(st.integers(0, g - 1)) for _ in range(3)]]
+            if draw(st.booleans()):
+                t = ["mul", t, G.expr((), (), 1)]
         elif k == "symcomp":
             t = ["index", ["fld", "m0"], [draw(st.integers(0, g - 1)), draw(st.integers(0, g - 1))]]
             if draw(st.booleans()):
@@ -255,6 +265,8 @@ def check_case(case):
         labels.append("mixed-component")
     if "'m0'" in flat and w["fields"]["m0"]["elem"][0] == "sym":
         labels.append("symmetric")
+    if "'s0'" in flat:
+        labels.append("symmetric-vector-blocks")
     if ops & {"grad", "divop", "curl", "nabla_grad", "nabla_div", "dx"}:
         labels.append("derivative")
     if w["gdim"] > TDIM[w["cell"]]:
